@@ -10,8 +10,9 @@
    namespace shared by constants / string constants / aliases / structs / messages, no message id
    declared twice (messages, signals and every expanded reserved id), no host name or value and
    no module name or value declared twice.  [in_range icd e]: the id of e passes its range guard
-   (host and module guards apply when import_coredefs is on and the file is not named
-   core_defs.yaml - that is what the code does). *)
+   (host and module guards apply when import_coredefs is on and the file is not the package's own
+   core_defs.yaml, [f_core] - Parser.is_core_file compares resolved paths, so a user file that
+   merely has that name is checked like any other). *)
 From Coq Require Import ZArith List Bool String Lia Permutation.
 From Defs Require Import Gen.TypeTables Gen.Guards Model.Registry
   Proofs.RegistryProofs Proofs.RegistryGraph Proofs.RegistryTop.
@@ -115,7 +116,7 @@ Proof.
   destruct (parse_ok_clean G icd roots s R E Hs) as [_ A]. rewrite Forall_forall in A.
   rewrite (A e I) in F. discriminate.
 Qed.
-(* ... where the guards are the regenerated ones; for a file not named core_defs.yaml, core defs imported: *)
+(* ... where the guards are the regenerated ones; for any file other than the package's core file, core defs imported: *)
 Theorem C12_range_guards : forall n v id,
   (in_range true (EHost false n v) = false <-> (v < 1 \/ 32767 < v)) /\
   (in_range true (EMod false n v) = false <-> ((v < 10 \/ (99 < v /\ v < 200)) /\ v <> 0)) /\
@@ -129,20 +130,16 @@ Proof.
 Qed.
 
 (* NEVER INVENTED: an error of a conflict kind is raised only when the reachable files really contain
-   a conflict (no item of the shared namespace being literally named _RESERVED_, see C12_sound_refuted) *)
+   a conflict *)
 Theorem C12_no_false_conflict : forall G icd roots k R, enumerates G roots R ->
-  parse G icd roots = RErr k -> conflict_kind k = true -> Forall no_key_item (events_of G R) ->
+  parse G icd roots = RErr k -> conflict_kind k = true ->
   ~ (conflict_free (events_of G R) /\ Forall (fun e => in_range icd e = true) (events_of G R)).
 Proof. intros G icd roots k R. exact (parse_no_false_conflict G icd roots k R). Qed.
 
-(* NEVER INVENTED, and the registered set: conflict-free, in range and otherwise well formed =>
-   accepted, and every registry holds exactly the items of the distinct reachable files, each once
-   (a file reached by several import paths, or through a cycle, contributes once).
-
-   FULL STATEMENT (refuted below): the same with [ev_wf_full] - names valid in the parser's own sense -
-   in place of [ev_wf].  The two differ only in that ev_wf does not let a constant, string constant,
-   alias or struct be literally named `_RESERVED_`. *)
-Theorem C12_sound_partial : forall G icd roots R, enumerates G roots R ->
+(* NEVER INVENTED, and the registered set: conflict-free, in range and otherwise well formed (names valid
+   in the parser's own sense) => accepted, and every registry holds exactly the items of the distinct
+   reachable files, each once (a file reached by several import paths, or through a cycle, contributes once) *)
+Theorem C12_sound : forall G icd roots R, enumerates G roots R ->
   let E := events_of G R in
   conflict_free E -> Forall (fun e => in_range icd e = true) E -> Forall (fun e => ev_wf e = true) E ->
   exists s, parse G icd roots = ROk s /\
@@ -159,40 +156,36 @@ Proof.
   split; [exact (enum_files G roots R En)|].
   repeat split; apply Permutation_flat_map; exact P.
 Qed.
-
-(* the full statement fails: a constant named _RESERVED_ followed by a reserved-id block is reported
-   as DuplicateNameError although no name and no id is declared twice.  (Read in the other order - the
-   block in an imported file, the constant in the importer - the same two items are accepted.) *)
-Definition f_reserved_const : file :=
-  mkFile false [] [("_RESERVED_", 1)] [] [] [] [] [] [MReserved [RInt 5; RRange 7 9]].
-Theorem C12_sound_refuted : exists G icd roots R,
-  enumerates G roots R /\ conflict_free (events_of G R) /\
-  Forall (fun e => in_range icd e = true) (events_of G R) /\ Forall (fun e => ev_wf_full e = true) (events_of G R) /\
-  parse G icd roots = RErr KDupName.
+(* [ev_wf] is exactly what check_name accepts: the validity test of every handler succeeds iff the name
+   starts with a letter, the `_RESERVED_` directive of message_defs apart *)
+Theorem C12_wf_is_check_name : forall n, name_ok n = starts_with_letter n /\
+  (name_ok_msg n = true <-> (n = reserved_key \/ starts_with_letter n = true)).
 Proof.
-  exists [f_reserved_const], false, [0%nat], [0%nat]. split.
-  - pose proof (trace_enumerates [f_reserved_const] [0%nat]) as T.
-    replace (files_of (trace [f_reserved_const] [0%nat])) with [0%nat] in T by (vm_compute; reflexivity). exact T.
-  - split; [apply cf_b_sound; vm_compute; reflexivity|].
-    split; [apply forallb_Forall; vm_compute; reflexivity|].
-    split; [apply forallb_Forall; vm_compute; reflexivity|]. vm_compute. reflexivity.
+  intros n. split; [reflexivity|]. unfold name_ok_msg. rewrite orb_true_iff, String.eqb_eq. tauto.
 Qed.
-Example C12_sound_refuted_other_order :
-  let child := mkFile false [] [] [] [] [] [] [] [MReserved [RInt 5; RRange 7 9]] in
-  let root := mkFile false [1%nat] [("_RESERVED_", 1)] [] [] [] [] [] [] in
-  exists s, parse [root; child] false [0%nat] = ROk s /\ List.length (msgs s) = 4%nat.
-Proof. eexists. split; vm_compute; reflexivity. Qed.
 
-(* the range guards of host and module ids look at the file NAME: any user file called core_defs.yaml,
-   in any directory, is exempt (module id 7 and host id -4 accepted with the core definitions imported) *)
-Theorem C12_range_exemption_refuted : exists G roots s,
-  In (EMod true "MX" 7) (trace G roots) /\ module_id_out_of_range 7 = true /\
-  In (EHost true "HX" (-4)) (trace G roots) /\ host_id_out_of_range (-4) = true /\
-  parse G true roots = ROk s.
-Proof.
-  exists [mkFile false [1%nat] [] [] [] [] [] [] []; mkFile true [] [] [] [] [("HX", -4)] [("MX", 7)] [] []], [0%nat].
-  eexists. repeat split; vm_compute; try reflexivity; tauto.
-Qed.
+(* `_RESERVED_` is a directive of message_defs only: as the name of a constant (string constant, alias,
+   struct, host, module) it is an invalid name, whatever the reading order *)
+Example C12_ex_reserved_is_not_a_name :
+  let blk := MReserved [RInt 5; RRange 7 9] in
+  parse [mkFile false [] [("_RESERVED_", 1)] [] [] [] [] [] [blk]] false [0%nat] = RErr KName /\
+  parse [mkFile false [1%nat] [("_RESERVED_", 1)] [] [] [] [] [] []; mkFile false [] [] [] [] [] [] [] [blk]]
+        false [0%nat] = RErr KName /\
+  parse [mkFile false [] [] [] [] [("_RESERVED_", 3)] [] [] []] false [0%nat] = RErr KName /\
+  exists s, parse [mkFile false [1%nat] [] [] [] [] [] [] [blk]; mkFile false [] [] [] [] [] [] [] [MReserved [RInt 6]]]
+                  false [0%nat] = ROk s /\ map snd (msgs s) = [6; 5; 7; 8; 9].
+Proof. split; [|split; [|split]]; try (vm_compute; reflexivity). eexists. split; vm_compute; reflexivity. Qed.
+
+(* the range exemption belongs to the package's core file alone: the same ids in a user file (whatever
+   its name) are rejected when the core definitions are imported *)
+Example C12_ex_core_file_identity :
+  let ids := mkFile false [] [] [] [] [("HX", -4)] [("MX", 7)] [] [] in
+  parse [mkFile false [1%nat] [] [] [] [] [] [] []; ids] true [0%nat] = RErr KHostRange /\
+  parse [mkFile false [1%nat] [] [] [] [] [] [] []; mkFile false [] [] [] [] [] [("MX", 7)] [] []] true [0%nat]
+    = RErr KModRange /\
+  exists s, parse [mkFile false [1%nat] [] [] [] [] [] [] []; mkFile true [] [] [] [] [("HX", -4)] [("MX", 7)] [] []]
+                  true [0%nat] = ROk s.
+Proof. split; [|split]; try (vm_compute; reflexivity). eexists. vm_compute. reflexivity. Qed.
 
 (* python keeps the registries in dicts keyed by name; the model appends to lists.  Generated
    placeholder names are distinct for distinct ids, so no dict entry is overwritten *)
